@@ -92,8 +92,12 @@ def ref_forms(ctx, config, w, crate, op, A, B, Rr, byval_imp):
     return n
 
 
-def fit_form(ctx, config, U):
-    outs, b, _ = G.summarize(U, G.HRU + "_fit", set())
+def fit_form(ctx, config, U, w=None):
+    """_fit returns new(amount / scale(u), u) for one unit u.  Decided on the form of the summary where that is
+    syntactically evident; otherwise (e.g. the scale travels through the iterator in a tuple) by evaluating the
+    summary on every cell of every result type's scale partition: within a cell the selected unit and hence the
+    divisor is constant, and the amount is otherwise used in comparisons only (C05/amount-only-compared)."""
+    outs, b, ev = G.summarize(U, G.HRU + "_fit", set())
     amount = S.P(0, "amount")
     ok = True
     why = ""
@@ -107,6 +111,34 @@ def fit_form(ctx, config, U):
         if not good:
             ok = False
             why = "case [%s] returns %s, which is not new(amount / scale(u), u) for one unit u" % (T.show_guard(g), T.show(t))
+    if not ok and w is not None:
+        from . import conc, rules_c05
+        bad = rules_c05.amount_only_compared(outs, ev, U)
+        sem_ok, sem_why, cells = not bad, "the amount is used outside comparisons and the final division (%s)" % bad, 0
+        if sem_ok:
+            for q in w.qtypes:
+                if q.kind != "ref":
+                    continue
+                c = conc.Conc(U, q, ev)
+                for (cname, x) in rules_c05.cells(q):
+                    if x == 0:
+                        continue
+                    try:
+                        res = c.pick(outs, {0: x})
+                    except (conc.CannotEvaluate, conc.ModelPanic, T.Unsupported) as e:
+                        sem_ok, sem_why = False, "cannot evaluate the summary for %s, magnitude %s: %s" % (q.path, cname, e)
+                        break
+                    cells += 1
+                    if not (isinstance(res, tuple) and res[0] == "qty" and res[2] in q.variants and res[1] == x / q.tables["scale"][res[2]][1]):
+                        sem_ok, sem_why = False, "for %s, magnitude %s, _fit returns %s — not (amount / scale(u), u)" % (q.path, cname, (res,))
+                        break
+                if not sem_ok:
+                    break
+        if sem_ok and cells:
+            ok, why = True, ""
+            ctx.extra.setdefault("fit_form_semantic_cells", {})[config] = cells
+        else:
+            why = why + " — and by evaluation: " + sem_why
     ctx.ob("fit-form", config, ok and n >= 1, why or "no returning case", b["span"])
     return outs
 
@@ -125,13 +157,23 @@ def premises(ctx, config, w):
         for tk, (extra, imp) in G.overrides(ctx, "override", U, trait, allowed, label).items():
             if label == "HasRefUnit" and tk in model.AMOUNT_TYPES and extra == ["_fit"]:
                 continue
+            # symbol lookups play no part in the derived operators; overridden scale lookups are evaluated below
+            # with the type's own bodies
+            extra = [x for x in extra if x not in ("from_symbol", "unit_from_symbol", "from_scale", "unit_from_scale", "fmt")]
+            if not extra:
+                continue
             ctx.fail("override", "%s/%s/%s" % (config, label, tk),
                      "impl %s for %s overrides %s: the generated operators of types using it are not covered by the generic analysis" % (label, tk, extra), imp["span"])
-    louts, lb, lev = G.summarize(U, G.HRU + "unit_from_scale", {"*"}, stop=G.STOP_LOOKUP)
+    louts0, lb0, lev0 = G.summarize(U, G.HRU + "unit_from_scale", {"*"}, stop=G.STOP_LOOKUP)
     n = 0
     for q in w.qtypes:
         if q.kind not in ("ref", "dimless") or "scale" not in q.tables:
             continue
+        ov = {k: v for k, v in G.type_overrides(U, q).items() if k in ("LinearScaledUnit::from_scale", "HasRefUnit::unit_from_scale")}
+        if ov:
+            louts, lb, lev = G.summarize(U, G.HRU + "unit_from_scale", {"*"}, stop=G.STOP_LOOKUP, overrides=ov)
+        else:
+            louts, lb, lev = louts0, lb0, lev0
         scales = sorted({q.tables["scale"][v][1] for v in q.variants_const})
         probes = scales + [scales[0] / 3, scales[-1] * 7, (scales[0] + scales[-1]) / 2 + 1]
         for sgm in probes:
@@ -177,12 +219,68 @@ def natural_unit_exact(ctx, config, w, o, X, Y, Rr, amt, where):
     return n
 
 
+def decimal_accuracy(ctx, config, w, o, X, Y, Rr, imp, amt):
+    """Decimal back-end: for every unit pair the amount the operator stores (natural-unit branch) or hands to _fit
+    (fallback) is the monomial a (x) b times a coefficient; with the amount-free sub-trees folded as fpdec computes
+    them (18 fractional digits) that coefficient must equal its exact value — 1 resp. s_a (x) s_b — to 1e-18 relative.
+    A fallback that multiplies by the *rounded* scale quotient s_a / s_b loses most digits for far-apart units."""
+    from fractions import Fraction
+    from . import accuracy as A
+    from .magn import round18
+    U = w.U
+    body = U.item_body(imp, opforms.OPFN[o])
+    ev = T.Evaluator(U, keep_tags=True)
+    try:
+        outs = [(g, k, T.canon(t)) for g, k, t in ev.summarize(body)]
+    except T.Unsupported:
+        return 0   # reported by derived-form
+    UX, UY = unit_path_of(w, X, amt), unit_path_of(w, Y, amt)
+    sa_t = T.canon(S.scale(S.unit(a_, tag=X), tag=UX))
+    sb_t = T.canon(S.scale(S.unit(b_, tag=Y), tag=UY))
+    amounts = [T.canon(S.amount(a_, tag=X)), T.canon(S.amount(b_, tag=Y))]
+
+    def rows(key):
+        if key == amt:
+            return [("One", Fraction(1))]
+        q = w.by_path.get(key)
+        return [(v, q.tables["scale"][v][1]) for v in q.variants_const]
+    rscales = {s for _, s in rows(Rr)}
+    n = 0
+    worst = None
+    for (u, sa) in rows(X):
+        for (v, sb) in rows(Y):
+            sigma = sa * sb if o == "*" else sa / sb
+            natural = round18(sigma) in rscales
+            sel = [(k, t) for (g, k, t) in outs if all((a[0] == "isvar") and (p == natural) for a, p in g)]
+            if len(sel) != 1 or sel[0][0] != "val":
+                continue   # branch structure is judged by derived-form
+            t = sel[0][1]
+            if t[0] == "app" and t[1] in ("HasRefUnit::_fit", "Quantity::new") and t[3]:
+                t = t[3][0]
+            try:
+                rel, _err = A.worst(A.analyse_poly(t, {sa_t: sa, sb_t: sb}, amounts))
+            except A.Unsupported:
+                continue
+            n += 1
+            if rel > A.COEF_TOL and (worst is None or rel > worst[0]):
+                worst = (rel, u, v, t)
+    inst = "%s/%s %s %s" % (config, X, o, Y)
+    if worst is None:
+        ctx.ob("decimal-accuracy", inst, True, "", imp["span"])
+    else:
+        ctx.ob("decimal-accuracy", inst, False,
+               "with units (%s, %s) the evaluated amount %s carries a scale coefficient off by %.3g relative (allowed %.1g): a rounded 18-digit scale "
+               "combination is applied to the amounts — far beyond the rounding of the amount type" % (worst[1], worst[2], T.show(worst[3])[:200], float(worst[0]), float(A.COEF_TOL)),
+               imp["span"])
+    return n
+
+
 def run_config(ctx, config, counts):
     w = ws.load(config)
     U = w.U
     amt = ws.amount_type(config)
     ctx.configs.append(config)
-    fit_form(ctx, config, U)
+    fit_form(ctx, config, U, w)
     premises(ctx, config, w)
     for crate in w.crates:
         qts = [q for q in w.qtypes if q.crate is crate and q.kind != "dimless"]
@@ -208,6 +306,7 @@ def run_config(ctx, config, counts):
                 by_value_form(ctx, config, w, crate, o, X, Y, Rr, imp, amt)
                 if config.startswith("dec"):
                     counts["natural"] = counts.get("natural", 0) + natural_unit_exact(ctx, config, w, o, X, Y, Rr, amt, imp["span"])
+                    counts["accuracy"] = counts.get("accuracy", 0) + decimal_accuracy(ctx, config, w, o, X, Y, Rr, imp, amt)
                 counts["byval"].add((config, X, o, Y))
                 counts["ref"] += ref_forms(ctx, config, w, crate, o, X, Y, Rr, imp)
 
@@ -221,6 +320,7 @@ def run(ctx):
     ctx.floor("dec-all catalogue by-value derived operators", cat("dec-all"), 34)
     ctx.floor("f64-all astronomical by-value derived operators", len([x for x in counts["byval"] if x[0] == "f64-all" and x[1].startswith("astronomical")]), 4)
     ctx.floor("decimal unit pairs examined for natural-unit exactness", counts.get("natural", 0), 2000)
+    ctx.floor("decimal unit pairs with analysed scale-coefficient accuracy", counts.get("accuracy", 0), 2000)
     ctx.floor("reference forms", counts["ref"], 3 * (34 + 4 + 8) + 3 * (34 + 8))
     ctx.rule_text = "one value-flow obligation per by-value derived operator impl and configuration (2 guard cases), three who-calls obligations for its reference forms, the generic _fit form"
     ctx.trusted = ["rustc THIR construction and trait resolution", "IEEE-754 / fpdec arithmetic per node",
